@@ -138,8 +138,18 @@ def gen_case(rng, k):
     defs = []
     locs = []
     fam = rng.choice(["arith", "arith", "arith", "eqonly", "eqonly", "unused", "passon", "where", "boolp", "lists",
-                      "ordonly", "eqlit", "recursive"])
-    if fam == "arith" or np_ == 1 and fam in ("eqonly", "ordonly", "unused"):
+                      "ordonly", "eqlit", "recursive", "partial"])
+    tparams, annots = [], {}
+    if fam == "partial":       # declared type parameters (any order of names) annotate some parameters,
+        # the other parameters and the return type are inferred (echo must name every variable consistently)
+        pool = rng.sample(["Z", "D", "A", "M", "B", "X", "T1", "Q"], rng.randint(1, min(3, np_ + 1)))
+        who = rng.sample(params, min(len(params), len(pool)))
+        for tp, pa in zip(pool, who):
+            if rng.random() < 0.85:
+                annots[pa] = ("dim", ("name", tp)) if rng.random() < 0.8 else ("dim", ("pow", ("name", tp), "2"))
+        tparams = [(tp, True) for tp in pool]
+        body = gen_body(rng, params)
+    elif fam == "arith" or np_ == 1 and fam in ("eqonly", "ordonly", "unused"):
         body = gen_body(rng, params)
     elif fam == "eqonly":      # some parameters occur only as operands of == / !=
         a, b = params[0], params[1]
@@ -197,7 +207,7 @@ def gen_case(rng, k):
         x = gen_body(rng, params[:1])
         body = rng.choice([("list", [x, bn("*", num("2"), x)]), ("call", "mean", [("list", [x, x])]),
                            ("list", [idn(p) for p in params])])
-    fn = ("fn", fname, [], [(p, None) for p in params], None, locs, body)
+    fn = ("fn", fname, tparams, [(p, annots.get(p)) for p in params], None, locs, body)
     defs.append(fn)
     calls = []
     for _ in range(5):
@@ -410,7 +420,9 @@ def run(chk):
         "rule": "seeded unannotated function bodies (monomials with rational / zero / composite exponents, sums of equal "
                 "shapes, quotients, conditionals, calls to sqrt/sqr/abs/cbrt/hypot2; families in which parameters are only "
                 "compared with == / !=, only ordered, compared with a literal, unused, only passed on to a user or library "
-                "function, reach the body only through where-locals, are conditions, or are list elements; 1-3 "
+                "function, reach the body only through where-locals, are conditions, or are list elements; a family of partially annotated generic functions whose "
+                "declared type parameters (in any order of names, possibly unused) annotate some parameters while the other "
+                "parameters and the return type are inferred; 1-3 "
                 "parameters) each with 6 call sites from a pool of "
                 "concrete quantities; distinct = distinct raw inferred schemes; non-trivial = the inferred scheme "
                 "quantifies over at least one variable",
